@@ -330,6 +330,12 @@ class LRI(dict):
     def __ne__(self, other):
         return not (self == other)
 
+    def __len__(self):
+        # an evicting insert deletes, then inserts: without the lock a reader
+        # could see max_size - 1 items in a cache that is full before and after
+        with self._lock:
+            return super().__len__()
+
     def __repr__(self):
         cn = self.__class__.__name__
         val_map = super().__repr__()
